@@ -273,6 +273,19 @@ CircuitExec::StageRun CircuitExec::runStage(Circuit &c, int opIndex, const Op &o
     mk->dom06 = (dom.c06 && !r.paramsRejected && moderate) ? 1 : 0;
   }
   float blendF = (float)params.global.exportBlending;
+  // Known finding C06-netlist-without-connections: when no net joins two different cells the
+  // continuous model is a singular, inconsistent system (a cell's own pins pull against each other)
+  // and the conjugate-gradient solve diverges to huge finite values.  Violations of C06 on such a
+  // netlist carry their own clause names so that everything else is still reported.
+  bool noConnections = true;
+  for (size_t n = 0; n + 1 < r.pre.netLimits.size() && noConnections; ++n)
+    for (int q = r.pre.netLimits[n] + 1; q < r.pre.netLimits[n + 1]; ++q)
+      if (r.pre.pinCells[q] != r.pre.pinCells[r.pre.netLimits[n]]) {
+        noConnections = false;
+        break;
+      }
+  if (r.pre.netLimits.size() < 2) noConnections = false;  // no net at all: nothing pulls anywhere
+  auto c06clause = [&](const char *name) { return std::string(name) + (noConnections ? "-netlist-without-connections" : ""); };
   ColoquinteParameters callParams = params;  // the object the client passes to the call (the agent may write to it)
 
   tr_.ev(tag + " begin " + opKindName(op.kind) + " effort=" + std::to_string(ps.effort) +
@@ -362,7 +375,7 @@ CircuitExec::StageRun CircuitExec::runStage(Circuit &c, int opIndex, const Op &o
           long long vx = s.x[i], vy = s.y[i];
           if (vx == INT_MIN || vx == INT_MAX || vy == INT_MIN || vy == INT_MAX || std::llabs(vx) > (1LL << 30) ||
               std::llabs(vy) > (1LL << 30)) {
-            verdict("C06", "overflowed-coordinate", tag + " cb" + std::to_string(k) + " " + stepName(step) + ": cell " +
+            verdict("C06", c06clause("overflowed-coordinate"), tag + " cb" + std::to_string(k) + " " + stepName(step) + ": cell " +
                     std::to_string(i) + " at (" + std::to_string(vx) + "," + std::to_string(vy) + ")", opIndex);
             break;
           }
@@ -374,7 +387,7 @@ CircuitExec::StageRun CircuitExec::runStage(Circuit &c, int opIndex, const Op &o
             os << tag << " cb" << k << " " << stepName(step) << ": centre of cell " << i << " (" << cx << "," << cy
                << ") outside rows bounding box [" << fsPre.minX << "," << fsPre.maxX << "]x[" << fsPre.minY << ","
                << fsPre.maxY << "]";
-            verdict("C06", "ub-centre-outside-area", os.str(), opIndex);
+            verdict("C06", c06clause("ub-centre-outside-area"), os.str(), opIndex);
             break;
           }
         }
@@ -792,7 +805,7 @@ CircuitExec::StageRun CircuitExec::runStage(Circuit &c, int opIndex, const Op &o
           if (r.post.fixed[i]) continue;
           long long vx = r.post.x[i], vy = r.post.y[i];
           if (vx == INT_MIN || vx == INT_MAX || vy == INT_MIN || vy == INT_MAX || std::llabs(vx) > (1LL << 30) || std::llabs(vy) > (1LL << 30)) {
-            verdict("C06", "overflowed-coordinate", tag + " result: cell " + std::to_string(i) + " at (" + std::to_string(vx) + "," + std::to_string(vy) + ")", opIndex);
+            verdict("C06", c06clause("overflowed-coordinate"), tag + " result: cell " + std::to_string(i) + " at (" + std::to_string(vx) + "," + std::to_string(vy) + ")", opIndex);
             break;
           }
         }
@@ -810,14 +823,16 @@ CircuitExec::StageRun CircuitExec::runStage(Circuit &c, int opIndex, const Op &o
               double expct = (1.0 - b) * L + b * U - half;
               double mag = std::max({1.0, std::fabs(L), std::fabs(U), (double)std::max(r.post.pw(i), r.post.ph(i))});
               double tol = 0.5 + 0.5 * k1 + 16.0 * 1.1920929e-7 * mag * (k1 + 1.0);
-              bool exact = (b == 0.0 || b == 1.0);
+              // exact only while sizes are constant: after a resize the observed corner was rounded with
+              // another half size than the final export uses, so the two roundings no longer cancel
+              bool exact = (b == 0.0 || b == 1.0) && !r.realResize;
               bool bad = exact ? (R != expct) : (std::fabs(R - expct) > tol);
               if (bad) {
                 std::ostringstream os;
                 os << tag << ": returned " << (axis ? "y" : "x") << " of cell " << i << " is " << R << ", centre in the last LB " << L
                    << ", in the last UB " << U << ", half size now " << half << ", exportBlending " << b << " => expected " << expct << (exact ? " exactly" : " +- ") ;
                 if (!exact) os << tol;
-                verdict("C06", "export-blend", os.str(), opIndex);
+                verdict("C06", c06clause("export-blend"), os.str(), opIndex);
                 i = r.post.n();
                 break;
               }
